@@ -172,10 +172,36 @@ def unit_mutation(draw, desc):
     """Drop / duplicate / swap / move whole data units (offsets left as they were)."""
     d = copy.deepcopy(desc)
     seqs = d["sequences"]
+    # data units move: the byte-alignment padding recorded in front of each parse_info no longer fits, let the
+    # serialiser's defaults recompute it
+    for sq in seqs:
+        for u in sq["data_units"]:
+            u.get("parse_info", {}).pop("padding", None)
     si = draw(st.integers(0, len(seqs) - 1))
     units = seqs[si]["data_units"]
-    kind = draw(st.sampled_from(["drop", "dup", "swap", "move", "split_seq"]))
+    kind = draw(st.sampled_from(["drop", "dup", "swap", "move", "split_seq", "orphan_fragments", "orphan_fragments"]))
     if not units:
+        return d, kind
+    if kind == "orphan_fragments":
+        # remove the zero-slice first fragment of a fragmented picture and give its slice-carrying fragments the
+        # number of whatever picture came before (or keep theirs): slices arrive with no fragmented picture started
+        firsts = [k for k, u in enumerate(units) if "fragment_parse" in u
+                  and u["fragment_parse"].get("fragment_header", {}).get("fragment_slice_count") == 0]
+        if firsts:
+            k = firsts[draw(st.integers(0, len(firsts) - 1))]
+            prev_num = None
+            for u in units[:k]:
+                if "picture_parse" in u:
+                    prev_num = u["picture_parse"]["picture_header"].get("picture_number")
+                elif "fragment_parse" in u:
+                    prev_num = u["fragment_parse"]["fragment_header"].get("picture_number")
+            del units[k]
+            if prev_num is not None and draw(st.booleans()):
+                j = k
+                while j < len(units) and "fragment_parse" in units[j] and \
+                        units[j]["fragment_parse"]["fragment_header"].get("fragment_slice_count"):
+                    units[j]["fragment_parse"]["fragment_header"]["picture_number"] = prev_num
+                    j += 1
         return d, kind
     i = draw(st.integers(0, len(units) - 1))
     j = draw(st.integers(0, len(units) - 1))
